@@ -423,3 +423,40 @@ Proof.
   split; apply contrast_cache_fixed_all_pure.
 Qed.
 Print Assumptions contrast_cache_current_source_all_pure.
+
+(* ================================================================== Tcontrast / Fcontrast options *)
+Close Scope Q_scope.
+Open Scope R_scope.
+(* (R1) for EVERY store subset and EVERY dispersion argument (None, or any caller value d):
+   a stored t is effect * pos_recipr(sqrt(c cov c' * d_eff)) with d_eff the caller's
+   dispersion when given and self.dispersion otherwise - in particular the same t
+   whether or not 'sd' / 'effect' are stored, t * sd = effect whenever both are
+   stored (v, d_eff > 0), and fields that are not requested are None. *)
+Theorem Tcontrast_options :
+  forall st_t st_e st_sd ctheta v dc ds,
+  let m := g_Tcontrast Rops st_t st_e st_sd ctheta v dc ds in
+  let d := eff_disp dc ds in
+  (st_t = true -> r_t m = Some (Tres ctheta v d)) /\
+  (st_t = true -> r_t m = r_t (g_Tcontrast Rops true true true ctheta v dc ds)) /\
+  (st_e = true -> r_effect m = Some ctheta) /\
+  (st_sd = true -> r_sd m = Some (sqrt (v * d))) /\
+  (st_t = false -> r_t m = None) /\ (st_e = false -> r_effect m = None) /\ (st_sd = false -> r_sd m = None) /\
+  (0 < v -> 0 < d -> Tres ctheta v d * sqrt (v * d) = ctheta) /\
+  (dc = None -> d = ds) /\ (forall x, dc = Some x -> d = x).
+Proof.
+  intros st_t st_e st_sd ctheta v dc ds m d. unfold m, g_Tcontrast. fold d.
+  repeat split; try (intros ->; reflexivity).
+  - intros Hv Hd. rewrite Tres_is_effect_over_sd by assumption.
+    assert (P : 0 < sqrt (v * d)) by (apply sqrt_lt_R0; nra). field. lra.
+  - intros x ->. reflexivity.
+Qed.
+Print Assumptions Tcontrast_options.
+
+(* (R2) Fcontrast with a caller dispersion / a caller invcov: one-row F = t^2 of the Tcontrast
+   evaluated with the SAME dispersion argument, for any inverse invv of v *)
+Theorem Fcontrast_options_one_row :
+  forall ctheta v invv dc ds, 0 < v -> 0 < eff_disp dc ds -> invv * v = 1 ->
+  g_Fcontrast1 Rops ctheta invv dc ds =
+  Tres ctheta v (eff_disp dc ds) * Tres ctheta v (eff_disp dc ds).
+Proof. intros. unfold g_Fcontrast1. apply F1res_is_T_squared; assumption. Qed.
+Print Assumptions Fcontrast_options_one_row.
